@@ -746,6 +746,8 @@ class ImportanceNestedSampler(BaseNestedSampler):
             raise ValueError("`min_samples` must be less than `nlive`")
         if self.min_remove > self.nlive:
             raise ValueError("`min_remove` must be less than `nlive`")
+        if self.max_samples and self.max_samples <= self.nlive:
+            raise ValueError("`max_samples` must be greater than `nlive`")
         logger.debug("Sampler configuration is valid")
         return True
 
